@@ -118,6 +118,32 @@ func init() {
 		},
 		"stale words in a reused mantissa buffer (dec.make does not clear) beyond the INIT rule",
 		techFX+"; plus E4 tables under aliasing", cdaiAssume, fxAssume)
+	p("C11",
+		[]string{"FMTSHAPE@MarshalText|shortest|infinity|exponent-marker", "FX-IMMUT@(*Decimal).Append|(*Decimal).Text|(*Decimal).String|(*Decimal).Format|(*Decimal).fmt|(*Decimal).toa|(*Decimal).MarshalText|(*Decimal).bufSizeForFmt", "CONST@pow10tab|decMaxPow"},
+		[]string{
+			"FMTSHAPE: MarshalText (hence JSON) calls Append with a constant negative precision in a format Parse reads; on the negative-precision path Append makes no rounding copy; the infinity spelling Append writes is one Parse compares against and the exponent markers of the b and p formats are among those scanExponent accepts.",
+			"FX-IMMUT: no formatter writes its operand; CONST: pow10tab and decMaxPow (digit grouping used by both the writer and the reader) equal their mathematical definition.",
+		},
+		"round-trip equality of digits and exponent: NOT APPLICABLE to static analysis (digit placement in fmtE/fmtF/itoa and digit accumulation in scan are loop arithmetic over run-time values); this check is a thin necessary-condition claim only",
+		"shape rules over the SSA form of the writers and the reader (constants written vs constants compared), write-set analysis, table evaluation", fxAssume)
+	p("C12",
+		[]string{"ERRNIL", "ERRDROP", "SCANSHAPE", "CONST@decMaxPow", "FX-RBW@(*Decimal).scan|(*Decimal).Parse|SetString|UnmarshalText|(*Decimal).Scan", "PREC0@scan|Parse|SetString|UnmarshalText|(*Decimal).Scan", "FX-STICKY@(*Decimal).scan|(*Decimal).Parse", "FX-ACC@scan"},
+		[]string{
+			"ERRNIL: on every return (per φ edge) of scan, Parse, SetString, ParseDecimal and the context wrappers a possibly non-nil error comes with the nil *Decimal and a nil error with a non-nil one (SetString: flag true exactly with a non-nil result); Parse reports success only on paths where the reader returned io.EOF after the number (no trailing characters).",
+			"ERRDROP: every error returned by a callee inside the scanners is consumed (the three explicit `_ = r.UnreadByte()` excepted).",
+			"SCANSHAPE: the '_' gate handed to scanExponent is the one dec.scan applies (base == 0); fraction digits of base 2/8/16 mantissas contribute 1/3/4 binary exponent units, base-10 digits one decimal unit.",
+			"CONST: decMaxPow tables; FX-RBW/PREC0/FX-STICKY/FX-ACC: scan reads nothing of the old receiver, rounds only with an examined precision (34 for 0), keeps the mode, and defines the accuracy.",
+		},
+		"rounding of long literals, accuracy of the binary-exponent path (pow2), and agreement of the accepted language with math/big (would need the upstream source as a frozen reference); the separator automata of dec.scan/scanExponent",
+		"nil-ness facts from dominating branch edges on the SSA form, per return and φ edge; use-def checks on error results; shape rules on the radix switch", fxAssume)
+	p("C13",
+		[]string{"FMTSHAPE@Append|Format", "FX-IMMUT@(*Decimal).Append|(*Decimal).Text|(*Decimal).String|(*Decimal).Format|(*Decimal).fmt|(*Decimal).toa"},
+		[]string{
+			"FMTSHAPE: with an explicit precision Append rounds a fresh copy (never x) that was given x's rounding mode; the precision it requests must be provably non-zero (0 means `keep the operand's precision`, i.e. no rounding) — this obligation FAILS on the pinned tree and is the known finding F12; Format has a case for every documented verb (e E f F g G b p v s) and consults the flags + space 0 - and width/precision.",
+			"FX-IMMUT: formatting never writes its operand.",
+		},
+		"digit counts, %g exponent thresholds, padding and layout: NOT APPLICABLE to static analysis (arithmetic on run-time lengths); thin necessary-condition claim only",
+		"shape rules on the SSA form of Append/Format (receiver chain of the rounding copy, dominance of the precision test, lower-bound reasoning on the requested precision)", fxAssume)
 	p("C14",
 		[]string{"T-CONV@Int64(|Uint64(|Int(|Rat(", "T-UNARY@SetInt|SetUint64(|NewDecimal(|MinPrec(|IsInt(", "FX-STICKY@SetInt|SetUint64|SetRat|setBits64", "PREC0@SetInt|SetUint64|SetRat|setBits64|NewDecimal"},
 		[]string{
